@@ -66,6 +66,7 @@ End Loops.
 (* ------------------------------------------------------------------ termination: the seen cut *)
 Section Terminates.
   Variable nested_add : N -> N -> outcome N unit.
+  Variable fit : bool.
   Hypothesis add_no_err : forall a b e, nested_add a b <> Err e.
   Variable env : abi_env.
   Variable dom : list tyvar.
@@ -142,7 +143,7 @@ Section Terminates.
 
   Lemma packed_loop_ok rec f : forall l sn pairs,
     (forall v s, (measure s < f)%nat -> call_ok (rec v s) s) -> (measure sn < f)%nat ->
-    match packed_loop nested_add rec l sn pairs with
+    match packed_loop nested_add fit rec l sn pairs with
     | Err EOutOfFuel => False
     | Ok (_, sn') => incl sn sn'
     | _ => True
@@ -153,15 +154,18 @@ Section Terminates.
     assert (Hm' : (measure sn' < f)%nat) by (pose proof (measure_mono _ _ Hc); lia).
     destruct r as [ty|xs].
     - specialize (IH sn' (pairs ++ [(ty, s_off s)]) Hrec Hm').
-      destruct (packed_loop nested_add rec l sn' (pairs ++ [(ty, s_off s)])) as [[ps sn'']|e|p]; [|exact IH|exact I].
+      destruct (packed_loop nested_add fit rec l sn' (pairs ++ [(ty, s_off s)])) as [[ps sn'']|e|p]; [|exact IH|exact I].
       eapply incl_tran; eauto.
-    - pose proof (shift_pairs_no_oof nested_add add_no_err (s_off s) xs) as Hs.
-      destruct (shift_pairs nested_add (s_off s) xs) as [sh|e|p]; [|destruct e; try exact I; congruence|exact I].
-      specialize (IH sn' (pairs ++ sh) Hrec Hm').
-      destruct (packed_loop nested_add rec l sn' (pairs ++ sh)) as [[ps sn'']|e|p]; [|exact IH|exact I]. eapply incl_tran; eauto.
+    - destruct (negb fit || forallb (pair_fits (s_off s mod WORD_SIZE_BITS)) xs).
+      + pose proof (shift_pairs_no_oof nested_add add_no_err (s_off s) xs) as Hs.
+        destruct (shift_pairs nested_add (s_off s) xs) as [sh|e|p]; [|destruct e; try exact I; congruence|exact I].
+        specialize (IH sn' (pairs ++ sh) Hrec Hm').
+        destruct (packed_loop nested_add fit rec l sn' (pairs ++ sh)) as [[ps sn'']|e|p]; [|exact IH|exact I]. eapply incl_tran; eauto.
+      + specialize (IH sn' (pairs ++ [(a_any, s_off s)]) Hrec Hm').
+        destruct (packed_loop nested_add fit rec l sn' (pairs ++ [(a_any, s_off s)])) as [[ps sn'']|e|p]; [|exact IH|exact I]. eapply incl_tran; eauto.
   Qed.
 
-  Lemma abi_impl_ok : forall fuel v seen par, (measure seen < fuel)%nat -> call_ok (abi_impl nested_add env fuel v seen par) seen.
+  Lemma abi_impl_ok : forall fuel v seen par, (measure seen < fuel)%nat -> call_ok (abi_impl nested_add fit env fuel v seen par) seen.
   Proof.
     induction fuel as [|f IH]; intros v seen par Hm; [lia|]. cbn [abi_impl].
     destruct (type_of env v) as [e|err|p] eqn:T; cbn [call_ok]; [|destruct err; try exact I; exact (type_of_not_oof v T)|exact I].
@@ -173,9 +177,9 @@ Section Terminates.
     { intros Tc. rewrite Tc, andb_true_r in Cut. pose proof (measure_insert e seen (type_of_cand v e T Tc) Cut). lia. }
     assert (Sub : forall el sn k, (measure sn < f)%nat -> incl (e :: seen) sn ->
               (forall tp sn', incl sn sn' -> call_ok (k tp sn') seen) ->
-              call_ok (sub_type (fun v0 sn0 => abi_impl nested_add env f v0 sn0 POther) el sn k) seen).
+              call_ok (sub_type (fun v0 sn0 => abi_impl nested_add fit env f v0 sn0 POther) el sn k) seen).
     { intros el sn k Hms Hinc Hk. unfold sub_type. pose proof (IH el sn POther Hms) as Hc.
-      destruct (abi_impl nested_add env f el sn POther) as [[r sn']|err|p]; cbn [call_ok] in Hc |- *; [|destruct err; try exact I; contradiction|exact I].
+      destruct (abi_impl nested_add fit env f el sn POther) as [[r sn']|err|p]; cbn [call_ok] in Hc |- *; [|destruct err; try exact I; contradiction|exact I].
       apply Hk. exact Hc. }
     destruct e as [|id|width usage| |element length|key value|element|types is_struct|conflicts reasons]; cbn [call_ok]; try (apply Hi).
     - (* Equal *) exact I.
@@ -188,18 +192,18 @@ Section Terminates.
       intros vtp sn2 Hs2. cbn [call_ok]. eapply incl_tran; [exact Hi|]. eapply incl_tran; eauto.
     - (* DynamicArray *) apply Sub; [apply Hm1; reflexivity|apply incl_refl|]. intros tp sn' Hs. cbn [call_ok]. eapply incl_tran; [exact Hi|exact Hs].
     - (* Packed *)
-      pose proof (packed_loop_ok (fun v0 sn0 => abi_impl nested_add env f v0 sn0 PPacked) f types (Packed types is_struct :: seen) []
+      pose proof (packed_loop_ok (fun v0 sn0 => abi_impl nested_add fit env f v0 sn0 PPacked) f types (Packed types is_struct :: seen) []
                     (fun v0 s0 H0 => IH v0 s0 PPacked H0) (Hm1 eq_refl)) as HL.
-      destruct (packed_loop nested_add _ types (Packed types is_struct :: seen) []) as [[ps sn']|err|p]; cbn [call_ok]; [|destruct err; try exact I; contradiction|exact I].
+      destruct (packed_loop nested_add fit _ types (Packed types is_struct :: seen) []) as [[ps sn']|err|p]; cbn [call_ok]; [|destruct err; try exact I; contradiction|exact I].
       eapply incl_tran; [exact Hi|exact HL].
   Qed.
 
   (* abi_terminates: with fuel = number of classes + 1 the result is never the out-of-fuel value *)
-  Theorem abi_terminates_gen v : abi_type_for nested_add env (S (length dom)) v <> Err EOutOfFuel.
+  Theorem abi_terminates_gen v : abi_type_for nested_add fit env (S (length dom)) v <> Err EOutOfFuel.
   Proof.
     unfold abi_type_for. pose proof (abi_impl_ok (S (length dom)) v [] PNone) as H.
     assert ((measure [] < S (length dom))%nat) by (pose proof (measure_le_dom []); lia). specialize (H H0).
-    destruct (abi_impl nested_add env (S (length dom)) v [] PNone) as [[r sn]|e|p]; try discriminate.
+    destruct (abi_impl nested_add fit env (S (length dom)) v [] PNone) as [[r sn]|e|p]; try discriminate.
     destruct e; try discriminate. destruct H.
   Qed.
 End Terminates.
@@ -207,6 +211,7 @@ End Terminates.
 (* ------------------------------------------------------------------ no panic *)
 Section NoPanic.
   Variable nested_add : N -> N -> outcome N unit.
+  Variable fit : bool.
   Hypothesis add_total : forall a b, exists o, nested_add a b = Ok o.
   Variable env : abi_env.
   Variable dom : list tyvar.
@@ -224,13 +229,14 @@ Section NoPanic.
   Qed.
 
   Lemma packed_loop_no_panic rec : forall l sn pairs,
-    (forall s, In s l -> forall sn', no_panic (rec (s_typ s) sn')) -> no_panic (packed_loop nested_add rec l sn pairs).
+    (forall s, In s l -> forall sn', no_panic (rec (s_typ s) sn')) -> no_panic (packed_loop nested_add fit rec l sn pairs).
   Proof.
     induction l as [|s l IH]; intros sn pairs Hrec p; cbn [packed_loop]; [discriminate|].
     pose proof (Hrec s (or_introl eq_refl) sn) as Hs. destruct (rec (s_typ s) sn) as [[r sn']|e|q]; [|discriminate|exfalso; exact (Hs q eq_refl)].
     destruct r as [ty|xs].
     - apply IH. intros s' Hs'. apply Hrec. right. exact Hs'.
-    - pose proof (shift_pairs_no_panic (s_off s) xs) as Hp. destruct (shift_pairs nested_add (s_off s) xs) as [sh|e|q]; [|discriminate|exfalso; exact (Hp q eq_refl)].
+    - destruct (negb fit || forallb (pair_fits (s_off s mod WORD_SIZE_BITS)) xs); [|apply IH; intros s' Hs'; apply Hrec; right; exact Hs'].
+      pose proof (shift_pairs_no_panic (s_off s) xs) as Hp. destruct (shift_pairs nested_add (s_off s) xs) as [sh|e|q]; [|discriminate|exfalso; exact (Hp q eq_refl)].
       apply IH. intros s' Hs'. apply Hrec. right. exact Hs'.
   Qed.
 
@@ -239,7 +245,7 @@ Section NoPanic.
     intros Hv p. unfold type_of. rewrite (dom_expr v Hv). destruct (ty_data env v) as [[|e [|]]|]; discriminate.
   Qed.
 
-  Lemma abi_impl_no_panic : forall fuel v seen par, In v dom -> no_panic (abi_impl nested_add env fuel v seen par).
+  Lemma abi_impl_no_panic : forall fuel v seen par, In v dom -> no_panic (abi_impl nested_add fit env fuel v seen par).
   Proof.
     induction fuel as [|f IH]; intros v seen par Hv p; cbn [abi_impl]; [discriminate|].
     pose proof (type_of_no_panic v Hv) as Ht. destruct (type_of env v) as [e|err|q] eqn:T; [|discriminate|exfalso; exact (Ht q eq_refl)].
@@ -247,33 +253,33 @@ Section NoPanic.
     rewrite (dom_expr v Hv). cbn [negb].
     pose proof (dom_closed v e Hv T) as Hc.
     assert (Sub : forall el sn k, In el dom -> (forall tp sn', no_panic (k tp sn')) ->
-              no_panic (sub_type (fun v0 sn0 => abi_impl nested_add env f v0 sn0 POther) el sn k)).
+              no_panic (sub_type (fun v0 sn0 => abi_impl nested_add fit env f v0 sn0 POther) el sn k)).
     { intros el sn k Hel Hk q. unfold sub_type. pose proof (IH el sn POther Hel) as Hi.
-      destruct (abi_impl nested_add env f el sn POther) as [[r sn']|err|q']; [apply Hk|discriminate|intros E; exact (Hi q' eq_refl)]. }
+      destruct (abi_impl nested_add fit env f el sn POther) as [[r sn']|err|q']; [apply Hk|discriminate|intros E; exact (Hi q' eq_refl)]. }
     destruct e as [|id|width usage| |element length|key value|element|types is_struct|conflicts reasons]; try discriminate.
     - unfold word_abi. destruct usage, width; repeat match goal with |- context [if ?c then _ else _] => destruct c end; discriminate.
     - apply Sub; [apply Hc; cbn; auto|]. intros tp sn' q. discriminate.
     - apply Sub; [apply Hc; cbn; auto|]. intros ktp sn1. apply Sub; [apply Hc; cbn; auto|]. intros vtp sn2 q. discriminate.
     - apply Sub; [apply Hc; cbn; auto|]. intros tp sn' q. discriminate.
-    - pose proof (packed_loop_no_panic (fun v0 sn0 => abi_impl nested_add env f v0 sn0 PPacked) types
+    - pose proof (packed_loop_no_panic (fun v0 sn0 => abi_impl nested_add fit env f v0 sn0 PPacked) types
                     (if abi_seen_insert then Packed types is_struct :: seen else seen) []) as HL.
-      destruct (packed_loop nested_add _ types _ []) as [[ps sn']|err|q]; [discriminate|discriminate|].
+      destruct (packed_loop nested_add fit _ types _ []) as [[ps sn']|err|q]; [discriminate|discriminate|].
       exfalso. eapply HL; [|reflexivity]. intros s Hs sn'0. apply IH. apply Hc. cbn [te_vars]. apply in_map. exact Hs.
   Qed.
 
-  Theorem abi_no_panic_gen fuel v : In v dom -> no_panic (abi_type_for nested_add env fuel v).
+  Theorem abi_no_panic_gen fuel v : In v dom -> no_panic (abi_type_for nested_add fit env fuel v).
   Proof.
     intros Hv p. unfold abi_type_for. pose proof (abi_impl_no_panic fuel v [] PNone Hv) as H.
-    destruct (abi_impl nested_add env fuel v [] PNone) as [[r sn]|e|q]; try discriminate. intros [= ->]. exact (H p eq_refl).
+    destruct (abi_impl nested_add fit env fuel v [] PNone) as [[r sn]|e|q]; try discriminate. intros [= ->]. exact (H p eq_refl).
   Qed.
 
   Theorem build_layout_no_panic fuel vals : forall layout, (forall x, In x vals -> In (tv_of x) dom) ->
-    no_panic (build_layout nested_add env fuel vals layout).
+    no_panic (build_layout nested_add fit env fuel vals layout).
   Proof.
     induction vals as [|x r IH]; intros layout Hd p; cbn [build_layout]; [discriminate|].
     destruct (const_slot_key x); [|apply IH; intros y Hy; apply Hd; right; exact Hy].
     pose proof (abi_no_panic_gen fuel (tv_of x) (Hd x (or_introl eq_refl))) as Ha.
-    destruct (abi_type_for nested_add env fuel (tv_of x)) as [a|e|q]; [|discriminate|exfalso; exact (Ha q eq_refl)].
+    destruct (abi_type_for nested_add fit env fuel (tv_of x)) as [a|e|q]; [|discriminate|exfalso; exact (Ha q eq_refl)].
     apply IH. intros y Hy. apply Hd. right. exact Hy.
   Qed.
 End NoPanic.
@@ -297,10 +303,11 @@ Qed.
 
 Section Layout.
   Variable nested_add : N -> N -> outcome N unit.
+  Variable fit : bool.
   Variable env : abi_env.
 
   (* at the top level (no parent) a class never turns into an empty list of rows *)
-  Lemma top_level_nonempty fuel v r sn : abi_impl nested_add env fuel v [] PNone = Ok (r, sn) -> r <> APacked [].
+  Lemma top_level_nonempty fuel v r sn : abi_impl nested_add fit env fuel v [] PNone = Ok (r, sn) -> r <> APacked [].
   Proof.
     destruct fuel as [|f]; cbn [abi_impl]; [discriminate|].
     destruct (type_of env v) as [e|err|q]; try discriminate.
@@ -308,11 +315,11 @@ Section Layout.
     destruct (negb (has_expr env v)); [discriminate|].
     destruct e as [|id|width usage| |element length|key value|element|types is_struct|conflicts reasons]; try (intros [= <- _]; discriminate); try discriminate.
     - destruct (word_abi _ width usage); try discriminate. intros [= <- _]. discriminate.
-    - unfold sub_type. destruct (abi_impl nested_add env f element _ POther) as [[r' sn']|?|?]; try discriminate. intros [= <- _]. discriminate.
-    - unfold sub_type. destruct (abi_impl nested_add env f key _ POther) as [[r' sn']|?|?]; try discriminate.
-      destruct (abi_impl nested_add env f value sn' POther) as [[r'' sn'']|?|?]; try discriminate. intros [= <- _]. discriminate.
-    - unfold sub_type. destruct (abi_impl nested_add env f element _ POther) as [[r' sn']|?|?]; try discriminate. intros [= <- _]. discriminate.
-    - destruct (packed_loop nested_add _ types _ []) as [[ps sn']|?|?]; try discriminate. intros [= <- _].
+    - unfold sub_type. destruct (abi_impl nested_add fit env f element _ POther) as [[r' sn']|?|?]; try discriminate. intros [= <- _]. discriminate.
+    - unfold sub_type. destruct (abi_impl nested_add fit env f key _ POther) as [[r' sn']|?|?]; try discriminate.
+      destruct (abi_impl nested_add fit env f value sn' POther) as [[r'' sn'']|?|?]; try discriminate. intros [= <- _]. discriminate.
+    - unfold sub_type. destruct (abi_impl nested_add fit env f element _ POther) as [[r' sn']|?|?]; try discriminate. intros [= <- _]. discriminate.
+    - destruct (packed_loop nested_add fit _ types _ []) as [[ps sn']|?|?]; try discriminate. intros [= <- _].
       unfold packed_result. cbn [parent_eqb]. destruct ps as [|[t1 o1] [|p2 ps]]; try discriminate.
       + destruct (o1 =? 0); discriminate.
       + destruct is_struct; discriminate.
@@ -321,14 +328,14 @@ Section Layout.
   (* layout_row_per_const_slot + index_full_width: every constant storage slot among the values gets at least one
      row, whose index is the 256-bit key itself *)
   Theorem layout_row_per_const_slot_gen fuel : forall vals layout L,
-    build_layout nested_add env fuel vals layout = Ok L ->
+    build_layout nested_add fit env fuel vals layout = Ok L ->
     (forall e, In e layout -> In e L) /\
     (forall x c, In x vals -> const_slot_key x = Some c -> exists off ty, In (c, off, ty) L).
   Proof.
     induction vals as [|x r IH]; intros layout L; cbn [build_layout].
     - intros [= <-]. split; [auto|]. intros x c [].
     - destruct (const_slot_key x) as [index|] eqn:K.
-      + unfold abi_type_for. destruct (abi_impl nested_add env fuel (tv_of x) [] PNone) as [[a sn]|e|q] eqn:A; try discriminate.
+      + unfold abi_type_for. destruct (abi_impl nested_add fit env fuel (tv_of x) [] PNone) as [[a sn]|e|q] eqn:A; try discriminate.
         intros B. destruct (IH _ _ B) as (Keep & Rows).
         assert (Hrow : exists off ty, In (index, off, ty) (fold_left layout_add (rows_of index a) layout)).
         { pose proof (top_level_nonempty _ _ _ _ A) as Ne. destruct a as [t|[|[t o] ps]]; [| congruence|].
@@ -346,6 +353,7 @@ End Layout.
 (* ------------------------------------------------------------------ reported offsets stay inside the slot (C12) *)
 Section Offsets.
   Variable nested_add : N -> N -> outcome N unit.
+  Variable fit : bool.
   (* both generated sums agree with + below 2^64 *)
   Hypothesis add_exact : forall a b o, nested_add a b = Ok o -> a + b < two64 -> o = a + b.
   Variable env : abi_env.
@@ -420,7 +428,7 @@ Section Offsets.
   Lemma packed_loop_ok_w rec v ts b : preach v -> type_of env v = Ok (Packed ts b) ->
     (forall s sn r sn', In s ts -> rec (s_typ s) sn = Ok (r, sn') -> res_ok (wd (s_typ s)) r) ->
     forall l sn pairs ps sn', incl l ts -> Forall (pair_ok (wd v)) pairs ->
-      packed_loop nested_add rec l sn pairs = Ok (ps, sn') -> Forall (pair_ok (wd v)) ps.
+      packed_loop nested_add fit rec l sn pairs = Ok (ps, sn') -> Forall (pair_ok (wd v)) ps.
   Proof.
     intros Hv T Hrec. induction l as [|s l IH]; intros sn pairs ps sn' Hl HP; cbn [packed_loop].
     - intros [= <- _]. exact HP.
@@ -430,9 +438,12 @@ Section Offsets.
       destruct r as [ty|xs].
       + apply IH; [intros z Hz; apply Hl; right; exact Hz|]. apply Forall_app. split; [exact HP|]. constructor; [|constructor].
         split; cbn [fst snd]; [lia|]. cbn [res_ok] in Hr. destruct (aty_width ty); [lia|exact I].
-      + destruct (shift_pairs nested_add (s_off s) xs) as [sh|e|q] eqn:Sh; try discriminate.
-        apply IH; [intros z Hz; apply Hl; right; exact Hz|]. apply Forall_app. split; [exact HP|].
-        eapply shift_pairs_ok; [exact Sh|exact Hr|lia|exact Wv].
+      + destruct (negb fit || forallb (pair_fits (s_off s mod WORD_SIZE_BITS)) xs).
+        * destruct (shift_pairs nested_add (s_off s) xs) as [sh|e|q] eqn:Sh; try discriminate.
+          apply IH; [intros z Hz; apply Hl; right; exact Hz|]. apply Forall_app. split; [exact HP|].
+          eapply shift_pairs_ok; [exact Sh|exact Hr|lia|exact Wv].
+        * apply IH; [intros z Hz; apply Hl; right; exact Hz|]. apply Forall_app. split; [exact HP|]. constructor; [|constructor].
+          split; cbn [fst snd]; [lia|exact I].
   Qed.
 
   Lemma packed_result_ok par b ps W : Forall (pair_ok W) ps -> res_ok W (packed_result par b ps).
@@ -446,15 +457,15 @@ Section Offsets.
   Qed.
 
   Lemma abi_impl_width : forall fuel v seen par r sn, preach v ->
-    abi_impl nested_add env fuel v seen par = Ok (r, sn) -> res_ok (wd v) r.
+    abi_impl nested_add fit env fuel v seen par = Ok (r, sn) -> res_ok (wd v) r.
   Proof.
     induction fuel as [|f IH]; intros v seen par r sn Hv; cbn [abi_impl]; [discriminate|].
     destruct (type_of env v) as [e|err|q] eqn:T; try discriminate.
     destruct (existsb (te_eqb e) seen && is_type_constructor e); [intros [= <- _]; exact I|].
     destruct (negb (has_expr env v)); [discriminate|].
     assert (Sub : forall el sn0 k, (forall tp sn1, k tp sn1 = Ok (r, sn) -> res_ok (wd v) r) ->
-              sub_type (fun v1 sn1 => abi_impl nested_add env f v1 sn1 POther) el sn0 k = Ok (r, sn) -> res_ok (wd v) r).
-    { intros el sn0 k Hk. unfold sub_type. destruct (abi_impl nested_add env f el sn0 POther) as [[r' sn1]|?|?]; try discriminate. apply Hk. }
+              sub_type (fun v1 sn1 => abi_impl nested_add fit env f v1 sn1 POther) el sn0 k = Ok (r, sn) -> res_ok (wd v) r).
+    { intros el sn0 k Hk. unfold sub_type. destruct (abi_impl nested_add fit env f el sn0 POther) as [[r' sn1]|?|?]; try discriminate. apply Hk. }
     destruct e as [|id|width usage| |element length|key value|element|types is_struct|conflicts reasons];
       try (intros [= <- _]; exact I); try discriminate.
     - destruct (word_abi (Word width usage) width usage) as [t|?|?] eqn:W; try discriminate. intros [= <- _]. cbn [res_ok].
@@ -463,19 +474,19 @@ Section Offsets.
     - apply Sub. intros tp sn1 [= <- _]. exact I.
     - apply Sub. intros ktp sn1. apply Sub. intros vtp sn2 [= <- _]. exact I.
     - apply Sub. intros tp sn1 [= <- _]. exact I.
-    - destruct (packed_loop nested_add _ types _ []) as [[ps sn']|?|?] eqn:L; try discriminate. intros [= <- _].
+    - destruct (packed_loop nested_add fit _ types _ []) as [[ps sn']|?|?] eqn:L; try discriminate. intros [= <- _].
       apply packed_result_ok. eapply (packed_loop_ok_w _ v types is_struct Hv T); [|apply incl_refl|constructor|exact L].
       intros s sn0 r0 sn1 Hs R. eapply IH; [|exact R]. eapply pr_step; eauto.
   Qed.
 
   (* abi_packed_offsets: every row reported for the queried class starts inside the slot and, when its type has
      a known width, ends inside it *)
-  Theorem abi_packed_offsets_gen fuel index a : abi_type_for nested_add env fuel v0 = Ok a ->
+  Theorem abi_packed_offsets_gen fuel index a : abi_type_for nested_add fit env fuel v0 = Ok a ->
     forall e, In e (rows_of index a) ->
       fst (fst e) = index /\ snd (fst e) < WORD_SIZE_BITS /\
       match aty_width (snd e) with Some w => snd (fst e) + w <= WORD_SIZE_BITS | None => True end.
   Proof.
-    unfold abi_type_for. destruct (abi_impl nested_add env fuel v0 [] PNone) as [[r sn]|?|?] eqn:A; try discriminate.
+    unfold abi_type_for. destruct (abi_impl nested_add fit env fuel v0 [] PNone) as [[r sn]|?|?] eqn:A; try discriminate.
     intros [= <-]. pose proof (abi_impl_width _ _ _ _ _ _ pr_refl A) as Hr. pose proof (d_top D) as Ht.
     intros e He. destruct r as [t|ps]; cbn [rows_of In] in He.
     - destruct He as [<-|[]]. cbn [fst snd]. split; [reflexivity|]. change WORD_SIZE_BITS with 256 in *. split; [lia|].
@@ -539,32 +550,40 @@ Definition nested_witness : list (tyvar * te) :=
    (24, Any);
    (25, Packed [mk_span 24 0 128; mk_span 25 128 128] false)].
 
-Lemma nested_witness_facts :
+(* pinned text (no guard on flattening): every span individually fits, the discipline fails, a row at bit 256 *)
+Lemma nested_witness_pinned_facts :
   single_spans_ok nested_witness 1 = true /\ wd_hyp nested_witness 1 = false /\ known_nested_spans nested_witness 1 = true /\
-  exists ty, abi_type_for abi_nested_add (env_cls nested_witness) 5 1 = Ok (APacked [(AT "Any" [] [], 128); (ty, 256)]).
+  exists ty, abi_type_for abi_nested_add false (env_cls nested_witness) 5 1 = Ok (APacked [(AT "Any" [] [], 128); (ty, 256)]).
 Proof. vm_compute. repeat split. eexists. reflexivity. Qed.
 
-(* the pinned sum `ofs + offset`: a closed class table on which abi_type_for panics *)
+(* repaired text: the nested encoding of the 128-bit span does not fit into the rest of the word and is replaced
+   by (Any, 128); the synthetic filler covers bits 0..128 *)
+Lemma nested_witness_repaired :
+  abi_type_for abi_nested_add true (env_cls nested_witness) 5 1 = Ok (APacked [(AT "Bytes" [1; 16] [], 0); (AT "Any" [] [], 128)]).
+Proof. vm_compute. reflexivity. Qed.
+
+(* the pinned sum `ofs + offset` without the guard: a closed class table on which abi_type_for panics *)
 Definition overflow_witness : list (tyvar * te) :=
   [(1, Packed [mk_span 3 (two64 - 1) 256] false); (3, Packed [mk_span 5 8 8] false); (5, Word (Some 8) UBytes)].
 
-Lemma overflow_witness_panics : abi_type_for (usize_add 9103) (env_cls overflow_witness) 4 1 = Panic 9103.
+Lemma overflow_witness_panics : abi_type_for (usize_add 9103) false (env_cls overflow_witness) 4 1 = Panic 9103.
 Proof. vm_compute. reflexivity. Qed.
 
 Lemma overflow_witness_saturates :
-  abi_type_for (fun a b => Ok (usize_sat_add a b)) (env_cls overflow_witness) 4 1
+  abi_type_for (fun a b => Ok (usize_sat_add a b)) false (env_cls overflow_witness) 4 1
   = Ok (APacked [(AT "Bytes" [1; 2305843009213693951] [], 0); (AT "Bytes" [1; 1] [], two64 - 1)]).
 Proof. vm_compute. reflexivity. Qed.
 
 (* ------------------------------------------------------------------ shapes of reported types (support for C04) *)
 Section Shapes.
   Variable nested_add : N -> N -> outcome N unit.
+  Variable fit : bool.
   Variable env : abi_env.
 
   (* a class resolved to a sized word is reported with exactly that usage and width (20-byte address, bytesN, ...) *)
   Lemma abi_word_reported f v seen par width usage t :
     type_of env v = Ok (Word width usage) -> has_expr env v = true -> word_abi (Word width usage) width usage = Ok t ->
-    abi_impl nested_add env (S f) v seen par = Ok (AType t, Word width usage :: seen).
+    abi_impl nested_add fit env (S f) v seen par = Ok (AType t, Word width usage :: seen).
   Proof.
     intros T H W. cbn [abi_impl]. rewrite T. cbn [is_type_constructor]. rewrite andb_false_r, seen_insert_on, H. cbn [negb]. rewrite W. reflexivity.
   Qed.
@@ -572,9 +591,9 @@ Section Shapes.
   (* a mapping class is reported as Mapping(key type, value type): nesting depth is preserved level by level *)
   Lemma abi_mapping_reported f v seen par k val :
     type_of env v = Ok (Mapping k val) -> has_expr env v = true -> existsb (te_eqb (Mapping k val)) seen = false ->
-    abi_impl nested_add env (S f) v seen par =
-      sub_type (fun v0 sn => abi_impl nested_add env f v0 sn POther) k (Mapping k val :: seen) (fun ktp sn1 =>
-      sub_type (fun v0 sn => abi_impl nested_add env f v0 sn POther) val sn1 (fun vtp sn2 =>
+    abi_impl nested_add fit env (S f) v seen par =
+      sub_type (fun v0 sn => abi_impl nested_add fit env f v0 sn POther) k (Mapping k val :: seen) (fun ktp sn1 =>
+      sub_type (fun v0 sn => abi_impl nested_add fit env f v0 sn POther) val sn1 (fun vtp sn2 =>
         Ok (AType (AT "Mapping" [] [ktp; vtp]), sn2))).
   Proof.
     intros T H S. cbn [abi_impl]. rewrite T, S. cbn [andb]. rewrite seen_insert_on, H. reflexivity.
@@ -582,10 +601,225 @@ Section Shapes.
 
   Lemma abi_dynarray_reported f v seen par el :
     type_of env v = Ok (DynamicArray el) -> has_expr env v = true -> existsb (te_eqb (DynamicArray el)) seen = false ->
-    abi_impl nested_add env (S f) v seen par =
-      sub_type (fun v0 sn => abi_impl nested_add env f v0 sn POther) el (DynamicArray el :: seen) (fun tp sn =>
+    abi_impl nested_add fit env (S f) v seen par =
+      sub_type (fun v0 sn => abi_impl nested_add fit env f v0 sn POther) el (DynamicArray el :: seen) (fun tp sn =>
         Ok (AType (AT "DynArray" [] [tp]), sn)).
   Proof.
     intros T H S. cbn [abi_impl]. rewrite T, S. cbn [andb]. rewrite seen_insert_on, H. reflexivity.
   Qed.
 End Shapes.
+
+(* ------------------------------------------------------------------ the guard on nested encodings (repaired text) *)
+Lemma sat_add_ltb a b : (usize_sat_add a b <? WORD_SIZE_BITS) = true <-> a + b < 256.
+Proof. unfold usize_sat_add. change WORD_SIZE_BITS with 256. rewrite N.ltb_lt. unfold two64. lia. Qed.
+
+Lemma sat_add_leb a b : (usize_sat_add a b <=? WORD_SIZE_BITS) = true <-> a + b <= 256.
+Proof. unfold usize_sat_add. change WORD_SIZE_BITS with 256. rewrite N.leb_le. unfold two64. lia. Qed.
+
+(* AbiType::bit_width (table read from the source) against the width the in-slot predicate of the checks uses *)
+Lemma fits_width a start :
+  match bit_width a with None => true | Some w => usize_sat_add start w <=? WORD_SIZE_BITS end = true ->
+  match aty_width a with Some w => start + w <= 256 | None => True end.
+Proof.
+  destruct a as [name nums kids]. unfold bit_width, aty_width. cbn [bw_lookup bit_width_table].
+  repeat match goal with
+         | |- context [String.eqb name ?s] => destruct (String.eqb name s) eqn:?; cbn [orb]
+         end;
+    try (intros _; exact I);
+    try (destruct (opt_num nums) as [w|]; cbn [option_map]; [|intros _; exact I]; rewrite sat_add_leb;
+         unfold usize_sat_mul; change BYTE_SIZE_BITS with 8; unfold two64; intros; lia);
+    try (rewrite sat_add_leb; unfold ADDRESS_WIDTH_BITS, SELECTOR_WIDTH_BITS, FUNCTION_WIDTH_BITS, BOOL_WIDTH_BITS; intros; lia).
+Qed.
+
+Lemma pair_fits_spec siw ty ofs : pair_fits siw (ty, ofs) = true ->
+  siw + ofs < 256 /\ match aty_width ty with Some w => siw + ofs + w <= 256 | None => True end.
+Proof.
+  unfold pair_fits. cbn [fst snd]. intros H. apply andb_true_iff in H as [H1 H2]. apply sat_add_ltb in H1. split; [exact H1|].
+  assert (E : usize_sat_add siw ofs = siw + ofs) by (unfold usize_sat_add, two64; lia). rewrite E in H2. exact (fits_width ty (siw + ofs) H2).
+Qed.
+
+Section Rows.
+  Variable nested_add : N -> N -> outcome N unit.
+  Hypothesis add_exact : forall a b o, nested_add a b = Ok o -> a + b < two64 -> o = a + b.
+  Variable env : abi_env.
+
+  Definition row_ok (p : aty * N) : Prop :=
+    snd p < 256 /\ match aty_width (fst p) with Some w => snd p + w <= 256 | None => True end.
+
+  (* where a reported pair of a Packed class comes from: directly from a span (its offset), or from the nested
+     encoding of a span, d bits after the span's start and inside the word the span starts in *)
+  Definition origin (s : span) (p : aty * N) : Prop :=
+    snd p = s_off s \/
+    exists d, snd p = s_off s + d /\ s_off s mod 256 + d < 256 /\
+              match aty_width (fst p) with Some w => s_off s mod 256 + d + w <= 256 | None => True end.
+
+  Lemma origin_same_word s p : origin s p -> snd p / 256 = s_off s / 256.
+  Proof.
+    intros [->|(d & -> & H & _)]; [reflexivity|]. pose proof (N.div_mod (s_off s) 256 ltac:(lia)) as E.
+    symmetry. apply (N.div_unique _ 256 _ (s_off s mod 256 + d)); [exact H|]. lia.
+  Qed.
+
+  Lemma shift_pairs_origin s xs sh : s_off s < two64 ->
+    forallb (pair_fits (s_off s mod WORD_SIZE_BITS)) xs = true -> shift_pairs nested_add (s_off s) xs = Ok sh ->
+    Forall (origin s) sh.
+  Proof.
+    intros Hs. change WORD_SIZE_BITS with 256. revert sh. induction xs as [|[ty ofs] xs IH]; intros sh HF; cbn [shift_pairs].
+    - intros [= <-]. constructor.
+    - cbn [forallb] in HF. apply andb_true_iff in HF as [H1 H2]. apply pair_fits_spec in H1 as (A & B).
+      destruct (nested_add ofs (s_off s)) as [o|e|q] eqn:E; try discriminate.
+      destruct (shift_pairs nested_add (s_off s) xs) as [r|e|q]; try discriminate. intros [= <-].
+      assert (Hlt : ofs + s_off s < two64).
+      { pose proof (N.div_mod (s_off s) 256 ltac:(lia)) as D. pose proof (N.mod_lt (s_off s) 256 ltac:(lia)) as M.
+        assert (s_off s / 256 < 2 ^ 56) by (apply N.div_lt_upper_bound; [lia|]; unfold two64 in Hs; lia). unfold two64. lia. }
+      pose proof (add_exact _ _ _ E Hlt) as ->. constructor; [|apply IH; auto].
+      right. exists ofs. cbn [fst snd]. split; [lia|]. split; [exact A|]. destruct (aty_width ty); [lia|exact I].
+  Qed.
+
+  (* for ALL class tables: every pair a Packed class reports lies at the start of one of its spans or, when it
+     comes out of a nested encoding, inside the word that span starts in -- no discipline needed *)
+  Lemma packed_loop_origin rec L : (forall s, In s L -> s_off s < two64) ->
+    forall l sn pairs ps sn', incl l L -> Forall (fun p => exists s, In s L /\ origin s p) pairs ->
+      packed_loop nested_add true rec l sn pairs = Ok (ps, sn') -> Forall (fun p => exists s, In s L /\ origin s p) ps.
+  Proof.
+    intros HL. induction l as [|s l IH]; intros sn pairs ps sn' Hl HP; cbn [packed_loop].
+    - intros [= <- _]. exact HP.
+    - assert (Hs : In s L) by (apply Hl; left; reflexivity).
+      assert (Hl' : incl l L) by (intros z Hz; apply Hl; right; exact Hz).
+      destruct (rec (s_typ s) sn) as [[r sn1]|e|q]; try discriminate. destruct r as [ty|xs].
+      + apply IH; [exact Hl'|]. apply Forall_app. split; [exact HP|]. constructor; [|constructor]. exists s. split; [exact Hs|]. left. reflexivity.
+      + cbn [negb orb]. destruct (forallb (pair_fits (s_off s mod WORD_SIZE_BITS)) xs) eqn:F.
+        * destruct (shift_pairs nested_add (s_off s) xs) as [sh|e|q] eqn:Sh; try discriminate.
+          apply IH; [exact Hl'|]. apply Forall_app. split; [exact HP|].
+          pose proof (shift_pairs_origin s xs sh (HL s Hs) F Sh) as HO. rewrite Forall_forall in *. intros p Hp. exists s. auto.
+        * apply IH; [exact Hl'|]. apply Forall_app. split; [exact HP|]. constructor; [|constructor]. exists s. split; [exact Hs|]. left. reflexivity.
+  Qed.
+
+  Theorem abi_nested_in_word_gen fuel v seen ts b ps sn :
+    type_of env v = Ok (Packed ts b) -> (forall s, In s ts -> s_off s < two64) ->
+    abi_impl nested_add true env fuel v seen PPacked = Ok (APacked ps, sn) ->
+    Forall (fun p => exists s, In s ts /\ origin s p) ps.
+  Proof.
+    intros T HL. destruct fuel as [|f]; cbn [abi_impl]; [discriminate|]. rewrite T.
+    destruct (existsb (te_eqb (Packed ts b)) seen && is_type_constructor (Packed ts b)); [discriminate|].
+    destruct (negb (has_expr env v)); [discriminate|].
+    destruct (packed_loop nested_add true _ ts _ []) as [[ps' sn']|?|?] eqn:L; try discriminate.
+    unfold packed_result. cbn [parent_eqb]. intros [= <- _].
+    eapply packed_loop_origin; [exact HL|apply incl_refl|constructor|exact L].
+  Qed.
+
+  (* a single type reported for a class (inside a Packed parent) has a known width only if the class is a sized
+     word, and then at most that width *)
+  Lemma atype_width_word fit fuel v seen t sn w' :
+    abi_impl nested_add fit env fuel v seen PPacked = Ok (AType t, sn) -> aty_width t = Some w' ->
+    exists w u, type_of env v = Ok (Word (Some w) u) /\ w' <= w.
+  Proof.
+    destruct fuel as [|f]; cbn [abi_impl]; [discriminate|]. destruct (type_of env v) as [e|?|?]; try discriminate.
+    destruct (existsb (te_eqb e) seen && is_type_constructor e); [intros [= <- _]; discriminate|].
+    destruct (negb (has_expr env v)); [discriminate|].
+    destruct e as [|id|width usage| |element length|key value|element|types is_struct|conflicts reasons];
+      try (intros [= <- _]; discriminate); try discriminate.
+    - destruct (word_abi (Word width usage) width usage) as [t'|?|?] eqn:W; try discriminate. intros [= <- _] Hw.
+      pose proof (word_abi_width _ _ _ _ W) as HW. rewrite Hw in HW. destruct HW as (w & -> & Hle). eauto.
+    - unfold sub_type. destruct (abi_impl nested_add fit env f element _ POther) as [[r' sn']|?|?]; try discriminate. intros [= <- _]. discriminate.
+    - unfold sub_type. destruct (abi_impl nested_add fit env f key _ POther) as [[r' sn']|?|?]; try discriminate.
+      destruct (abi_impl nested_add fit env f value sn' POther) as [[r'' sn'']|?|?]; try discriminate. intros [= <- _]. discriminate.
+    - unfold sub_type. destruct (abi_impl nested_add fit env f element _ POther) as [[r' sn']|?|?]; try discriminate. intros [= <- _]. discriminate.
+    - destruct (packed_loop nested_add fit _ types _ []) as [[ps sn']|?|?]; try discriminate; try (unfold packed_result; cbn [parent_eqb]; discriminate).
+  Qed.
+
+  Lemma shift_pairs_rows off xs sh : off < 256 ->
+    forallb (pair_fits (off mod WORD_SIZE_BITS)) xs = true -> shift_pairs nested_add off xs = Ok sh -> Forall row_ok sh.
+  Proof.
+    intros Ho. change WORD_SIZE_BITS with 256. rewrite (N.mod_small off 256 Ho). revert sh.
+    induction xs as [|[ty ofs] xs IH]; intros sh HF; cbn [shift_pairs].
+    - intros [= <-]. constructor.
+    - cbn [forallb] in HF. apply andb_true_iff in HF as [H1 H2]. apply pair_fits_spec in H1 as (A & B).
+      destruct (nested_add ofs off) as [o|e|q] eqn:E; try discriminate.
+      destruct (shift_pairs nested_add off xs) as [r|e|q]; try discriminate. intros [= <-].
+      assert (o = ofs + off) by (apply (add_exact _ _ _ E); unfold two64; lia). subst o.
+      constructor; [|apply IH; auto]. split; cbn [fst snd]; [lia|]. destruct (aty_width ty); [lia|exact I].
+  Qed.
+
+  Lemma packed_loop_rows rec ts :
+    (forall s, In s ts -> s_off s < 256) ->
+    (forall s sn t sn' w', In s ts -> rec (s_typ s) sn = Ok (AType t, sn') -> aty_width t = Some w' -> s_off s + w' <= 256) ->
+    forall l sn pairs ps sn', incl l ts -> Forall row_ok pairs ->
+      packed_loop nested_add true rec l sn pairs = Ok (ps, sn') -> Forall row_ok ps.
+  Proof.
+    intros Hoff Hrec. induction l as [|s l IH]; intros sn pairs ps sn' Hl HP; cbn [packed_loop].
+    - intros [= <- _]. exact HP.
+    - assert (Hs : In s ts) by (apply Hl; left; reflexivity).
+      assert (Hl' : incl l ts) by (intros z Hz; apply Hl; right; exact Hz).
+      destruct (rec (s_typ s) sn) as [[r sn1]|e|q] eqn:R; try discriminate. destruct r as [ty|xs].
+      + apply IH; [exact Hl'|]. apply Forall_app. split; [exact HP|]. constructor; [|constructor].
+        split; cbn [fst snd]; [exact (Hoff s Hs)|]. destruct (aty_width ty) as [w'|] eqn:W; [|exact I]. exact (Hrec s sn ty sn1 w' Hs R W).
+      + cbn [negb orb]. destruct (forallb (pair_fits (s_off s mod WORD_SIZE_BITS)) xs) eqn:F.
+        * destruct (shift_pairs nested_add (s_off s) xs) as [sh|e|q] eqn:Sh; try discriminate.
+          apply IH; [exact Hl'|]. apply Forall_app. split; [exact HP|]. exact (shift_pairs_rows _ _ _ (Hoff s Hs) F Sh).
+        * apply IH; [exact Hl'|]. apply Forall_app. split; [exact HP|]. constructor; [|constructor].
+          split; cbn [fst snd]; [exact (Hoff s Hs)|exact I].
+  Qed.
+
+  Lemma packed_result_rows b ps index : Forall row_ok ps ->
+    forall e, In e (rows_of index (packed_result PNone b ps)) ->
+      fst (fst e) = index /\ snd (fst e) < WORD_SIZE_BITS /\
+      match aty_width (snd e) with Some w => snd (fst e) + w <= WORD_SIZE_BITS | None => True end.
+  Proof.
+    intros HP e. unfold packed_result. cbn [parent_eqb]. change WORD_SIZE_BITS with 256.
+    assert (G : forall l, Forall row_ok l -> In e (rows_of index (APacked l)) ->
+                fst (fst e) = index /\ snd (fst e) < 256 /\ match aty_width (snd e) with Some w => snd (fst e) + w <= 256 | None => True end).
+    { intros l Hl He. cbn [rows_of] in He. apply in_map_iff in He as ([t o] & <- & Hin). rewrite Forall_forall in Hl.
+      destruct (Hl _ Hin) as (A & B). cbn [fst snd] in *. auto. }
+    destruct ps as [|[t o] [|p2 ps]].
+    - cbn [rows_of In]. intros [<-|[]]. cbn. repeat split; try lia.
+    - inversion HP as [|? ? (A & B) _]; subst. cbn [fst snd] in *. destruct (o =? 0) eqn:E.
+      + apply N.eqb_eq in E. subst o. cbn [rows_of In]. intros [<-|[]]. cbn [fst snd]. split; [reflexivity|]. split; [lia|].
+        destruct (aty_width t); [lia|exact I].
+      + apply G. constructor; [|exact HP]. split; cbn [fst snd]; [lia|]. rewrite a_bytes_width.
+        change BYTE_SIZE_BITS with 8. pose proof (N.mul_div_le o 8). lia.
+    - destruct b; [|apply G; exact HP]. cbn [rows_of In]. intros [<-|[]]. cbn. repeat split; try lia.
+  Qed.
+
+  (* abi_rows_in_slot: hypotheses ONLY about the queried class itself -- its spans start inside the slot and a
+     span whose type is a sized word ends inside it; a sized-word class is at most 256 bits wide -- and nothing
+     about nested classes: every reported row starts inside the slot and known widths end inside it *)
+  Theorem abi_rows_in_slot_gen fuel v0 index a :
+    (forall ts b s, type_of env v0 = Ok (Packed ts b) -> In s ts ->
+       s_off s < 256 /\ forall w u, type_of env (s_typ s) = Ok (Word (Some w) u) -> s_off s + w <= 256) ->
+    (forall w u, type_of env v0 = Ok (Word (Some w) u) -> w <= 256) ->
+    abi_type_for nested_add true env fuel v0 = Ok a ->
+    forall e, In e (rows_of index a) ->
+      fst (fst e) = index /\ snd (fst e) < WORD_SIZE_BITS /\
+      match aty_width (snd e) with Some w => snd (fst e) + w <= WORD_SIZE_BITS | None => True end.
+  Proof.
+    intros Htop Hword. unfold abi_type_for. destruct (abi_impl nested_add true env fuel v0 [] PNone) as [[r sn]|?|?] eqn:A; try discriminate.
+    intros [= <-]. destruct fuel as [|f]; cbn [abi_impl] in A; [discriminate|].
+    destruct (type_of env v0) as [e0|?|?] eqn:T; try discriminate. cbn [existsb andb] in A.
+    destruct (negb (has_expr env v0)); [discriminate|].
+    assert (Single : forall t, aty_width t = None -> forall e, In e (rows_of index (AType t)) ->
+              fst (fst e) = index /\ snd (fst e) < WORD_SIZE_BITS /\
+              match aty_width (snd e) with Some w => snd (fst e) + w <= WORD_SIZE_BITS | None => True end).
+    { intros t Ht e [<-|[]]. cbn [fst snd]. rewrite Ht. change WORD_SIZE_BITS with 256. repeat split; try lia. }
+    destruct e0 as [|id|width usage| |element length|key value|element|types is_struct|conflicts reasons]; try discriminate.
+    - inversion A; subst. apply Single. reflexivity.
+    - destruct (word_abi (Word width usage) width usage) as [t|?|?] eqn:W; try discriminate. inversion A; subst.
+      intros e [<-|[]]. cbn [fst snd]. change WORD_SIZE_BITS with 256. split; [reflexivity|]. split; [lia|].
+      pose proof (word_abi_width _ _ _ _ W) as HW. destruct (aty_width t) as [w'|]; [|exact I].
+      destruct HW as (w & -> & Hle). pose proof (Hword w usage eq_refl). lia.
+    - inversion A; subst. apply Single. reflexivity.
+    - unfold sub_type in A. destruct (abi_impl nested_add true env f element _ POther) as [[r' sn']|?|?]; try discriminate.
+      inversion A; subst. apply Single. reflexivity.
+    - unfold sub_type in A. destruct (abi_impl nested_add true env f key _ POther) as [[r' sn']|?|?]; try discriminate.
+      destruct (abi_impl nested_add true env f value sn' POther) as [[r'' sn'']|?|?]; try discriminate.
+      inversion A; subst. apply Single. reflexivity.
+    - unfold sub_type in A. destruct (abi_impl nested_add true env f element _ POther) as [[r' sn']|?|?]; try discriminate.
+      inversion A; subst. apply Single. reflexivity.
+    - destruct (packed_loop nested_add true _ types _ []) as [[ps sn']|?|?] eqn:L; try discriminate. inversion A; subst.
+      apply packed_result_rows.
+      eapply (packed_loop_rows _ types); [| |apply incl_refl|constructor|exact L].
+      + intros s Hs. exact (proj1 (Htop types is_struct s eq_refl Hs)).
+      + intros s sn0 t sn1 w' Hs R Hw. cbn beta in R. destruct (atype_width_word _ _ _ _ _ _ _ R Hw) as (w & u & Tw & Hle).
+        pose proof (proj2 (Htop types is_struct s eq_refl Hs) w u Tw). lia.
+    - inversion A; subst. apply Single. reflexivity.
+  Qed.
+End Rows.
